@@ -59,6 +59,10 @@ def run(tier):
         for b in p['parse_bad']:
             chk.violation('python:parse:%s' % b[0], '_parse_on_day_string(%r) = %s, expected %s' % (b[0], b[1], b[2]), {'on': b[0]})
         admitted = {tuple(a) for a in p['admitted']}
+        multi = {tuple(a) for a in p['admitted_multi']}
+        for e in sorted(multi ^ admitted)[:12]:
+            chk.violation('python:filter-depends-on-rule-position:m=%d:dom=%d' % (e[0], e[2]), 'the compiler %s a policy whose only questionable rule is month=%d dow=%d dom=%d when that rule stands between two harmless weekday rules, but %s it when it stands alone' % (
+                'admits' if e in multi else 'rejects', e[0], e[1], e[2], 'admits' if e in admitted else 'rejects'), {'expr': e})
         # every expression that can leave the year (in some year) must be rejected by the real filter
         spills = set()
         for (y, m, dow, dom), (cy, cm, cd, adm) in spec.items():
